@@ -384,6 +384,14 @@ def _strategy(tier):
                    st.binary(max_size=64).map(lambda b: {"raw": b, "src": "random:short"}))
 
 
+def _fuzz_drivers():
+  try:
+    from ..fuzz.driver import atheris_driver
+  except Exception:
+    return []
+  return [atheris_driver("fuzz-frames", "pvf.props.c15", runs=600000, corpus="corpus/C15", max_len=1604, timeout_s=600)]
+
+
 def plan(tier):
   if tier == "quick":
     return [
@@ -396,13 +404,38 @@ def plan(tier):
     Enum("single-fault-checksums-repaired", lambda: enum_faults_repaired(tier), shards=16),
     Enum("all-values-on-headers", lambda: enum_all_values(tier), shards=16),
     Hyp("mutation", lambda: _strategy(tier), examples=400000, shards=16),
-  ]
+  ] + _fuzz_drivers()
+
+
+def case_from_bytes(data):
+  """decode libFuzzer bytes into a case (used by pvf.fuzz.driver and pvf/fuzz/fuzz_frame.py).
+
+  byte 0 selects the mode: bit0 set -> the rest is the frame as is; bit0 clear -> byte 1 picks a corpus frame and the
+  rest is a list of (offset16, value8) edits applied to it (a small data-provider layer, because coverage feedback does
+  not see through struct/checksum comparisons); bit1 -> repair all checksums afterwards."""
+  if not data:
+    return {"raw": b"", "src": "fuzz:raw"}
+  mode = data[0]
+  if mode & 1:
+    return {"raw": bytes(data[1:1601]), "fix": bool(mode & 2), "src": "fuzz:raw"}
+  frames = corpus()
+  if len(data) < 2:
+    return {"raw": b"", "src": "fuzz:raw"}
+  f = bytearray(frames[data[1] % len(frames)][1])
+  i = 2
+  while i + 3 <= len(data) and f:
+    off = ((data[i] << 8) | data[i + 1]) % len(f)
+    f[off] = data[i + 2]
+    i += 3
+  if mode & 4 and i < len(data) and f:
+    f = f[:data[i] % (len(f) + 1)]
+  return {"raw": bytes(f), "fix": bool(mode & 2), "src": "fuzz:edit"}
 
 
 def write_corpus(dirpath):
-  """materialise the seed corpus for the atheris target (corpus/C15/)"""
+  """materialise the seed corpus for the atheris target (corpus/C15/): mode byte 0x01 + frame"""
   import os
   os.makedirs(dirpath, exist_ok=True)
   for name, f in corpus():
     with open(os.path.join(dirpath, name + ".bin"), "wb") as fh:
-      fh.write(f)
+      fh.write(b"\x01" + f)
